@@ -233,8 +233,10 @@ Fixpoint remove_pp (k : key) (sid : bytes) (l : list (key * bytes)) : list (key 
   | (k', s) :: r => if key_eqb k' k && bytes_eqb s sid then remove_pp k sid r else (k', s) :: remove_pp k sid r
   end.
 
-(* resolveTerminateTarget: by ev.Key first, then by ev.SessionID.  Defective (HEAD): whatever
-   session sits on the tuple.  Repaired: the session on the tuple only if it is the one named. *)
+(* resolveTerminateTarget: by ev.Key first, then by ev.SessionID.  Repaired = /repo HEAD since
+   94649ad: the session on the tuple only if it is the one the event names.  Defective = the code
+   before 94649ad (whatever session sits on the tuple); kept only for the historical _refuted witness,
+   not used by the correspondence any more. *)
 Definition key_hit (v : variant) (sid : bytes) (found : option owner) : option owner :=
   match found with
   | Some s => match v with
@@ -266,9 +268,15 @@ Definition pppoe_terminate (v : variant) (w : world) (ev : bytes * key) : world 
   match target with
   | None => w
   | Some (k', sid') =>
-      (* removeFromIndexes: delete(c.sessions, key) whatever it points to, drop the session, Release *)
+      (* removeFromIndexes: delete(c.sessions, key) only if it points to this session (9893c59),
+         drop the session from the id indexes, Release *)
       mkW (component_release proto_pppoe (w_reg w) k' sid')
-          (w_ipoe w) (m_del k' (w_pp_key w)) (remove_pp k' sid' (w_pp_all w)) (w_next w)
+          (w_ipoe w)
+          (match m_get k' (w_pp_key w) with
+           | Some cur => if bytes_eqb (o_sid cur) sid' then m_del k' (w_pp_key w) else w_pp_key w
+           | None => w_pp_key w
+           end)
+          (remove_pp k' sid' (w_pp_all w)) (w_next w)
   end.
 
 Definition deliver (v : variant) (w : world) (evs : list bytes) (k : key) : world :=
